@@ -506,7 +506,16 @@ def iterate(I, v, node=None):
         raise OutsideSubset(f"iteration over a sequence of symbolic length without a loop contract at {I.where(node)}")
     if isinstance(v, MapV):
         raise OutsideSubset(f"iteration over a symbolic map without a loop contract at {I.where(node)}")
-    I.throw("TypeError", f"{type(v).__name__} object is not iterable", node=node)
+    if isinstance(v, SymListV):
+        seq = symlist_as_seq(I, v)
+        if isinstance(seq.n, int):
+            for i in range(seq.n):
+                yield seq.at(i)
+            return
+        raise OutsideSubset(f"iteration over a list with a symbolic part without a loop contract at {I.where(node)}")
+    if isinstance(v, (CompDictV, LazyDictV, Opaque, ObjV, FuncV, ClassV)) or v is None or isinstance(v, (int, SInt, SBool, float)):
+        I.throw("TypeError", f"{type(v).__name__} object is not iterable", node=node)
+    raise OutsideSubset(f"iteration over {type(v).__name__} at {I.where(node)}")
 
 
 def unpack_iterable(I, v, n, node=None):
